@@ -188,6 +188,7 @@ class Ctx:
         self.origins, self.methods, self.kinds, self.precache = origins, methods, kinds, precache
         self.nondefault = nondefault    # the loop that runs is NOT desper.default_loop
         self.idle_h = None              # script handle the idle default loop is seated on (if any)
+        self.callstyle = False          # switch() calls on the default loop are spelled in five equivalent ways
         self.loadfault = False          # opt-in flavour: one load() raises once, the request is retried
         self.fault_countdown = None
         self.fault_exc = None
@@ -356,6 +357,11 @@ class Ctx:
             r.kw['clear_next'] = r.cn_arg
         r.origin = sp.pick(self.origins, 'origin[%d]' % k)
         r.method = sp.pick(self.methods, 'method[%d]' % k)
+        r.style = None
+        if self.callstyle and r.method == 'switch':
+            # how the caller spells the call on the default loop; all five mean the same
+            r.style = sp.pick(['default', 'from_world', 'from_none', 'positional', 'positional_from_none'],
+                              'callstyle[%d]' % k)
         if self.handles[r.j] is None:
             self.make_handle(r.j)
         self.next_req = r
@@ -445,7 +451,21 @@ class Ctx:
         if r.method == 'raw':
             raise desper.SwitchWorld(h, **r.kw)
         try:
-            if r.origin == 'processor' or self.nondefault:
+            if r.style is not None:
+                sp.cover('callstyle-' + r.style)
+                sp.note('      (spelled: %s)' % r.style)
+                if r.style == 'default':
+                    desper.switch(h, **r.kw)
+                elif r.style == 'from_world':
+                    desper.switch(h, from_world=inst.world, **r.kw)
+                elif r.style == 'from_none':
+                    # the documented default written out: "use the default loop's current world"
+                    desper.switch(h, from_world=None, **r.kw)
+                elif r.style == 'positional':
+                    desper.switch(h, r.cc, r.cn)
+                else:
+                    desper.switch(h, r.cc, r.cn, None)
+            elif r.origin == 'processor' or self.nondefault:
                 desper.switch(h, from_world=inst.world, **r.kw)
             else:
                 desper.switch(h, **r.kw)
@@ -553,9 +573,11 @@ def base_loop_defaults(sp):
 
 
 def h_switch(sp, R=2, n_handles=2, origins=('processor', 'on_update', 'coroutine'), methods=('switch', 'raw'),
-             kinds=('muted', 'plain'), precache=True, omit=False, nondefault=False, falsy=False, loadfault=False):
+             kinds=('muted', 'plain'), precache=True, omit=False, nondefault=False, falsy=False, loadfault=False,
+             callstyle=False):
     ctx = Ctx(sp, R, n_handles, list(origins), list(methods), list(kinds), precache, omit, nondefault)
     ctx.loadfault = loadfault
+    ctx.callstyle = callstyle and not nondefault
     if falsy:
         ctx.falsy = sp.pick(['bool', 'len'], 'falsy-world-class')
         sp.note('   all worlds are instances of %s (falsy)' % WORLD_CLASSES[ctx.falsy].__name__)
@@ -641,6 +663,8 @@ ALL_TAGS = ['origin-processor', 'origin-on_update', 'origin-coroutine', 'method-
             'switch-clear_next-cached', 'switch-clear_next-uncached', 'switch-clear_current', 'switch-self',
             'switch-self-cleared', 'reenter-held', 'raw-clear', 'left-handle-cleared', 'entered-fresh-muted', 'entered-fresh-plain',
             'precached-muted', 'precached-plain', 'flag-omitted-direct']
+STYLE_TAGS = ['callstyle-default', 'callstyle-from_world', 'callstyle-from_none', 'callstyle-positional',
+              'callstyle-positional_from_none']
 ND_TAGS = ['nondefault-loop', 'nondefault-self-switch-clear', 'idle-default-on-target', 'idle-default-on-target-other']
 OMIT_TAGS = ['flag-omitted', 'flag-omitted-clear_current', 'flag-omitted-clear_next']
 
@@ -661,6 +685,12 @@ HARNESSES = {
                            nontrivial=[t for t in ALL_TAGS if t.startswith(('switch-', 'reenter', 'raw-clear'))] + ND_TAGS,
                            required=[t for t in ALL_TAGS if t not in ('origin-on_update', 'origin-coroutine')]
                            + ND_TAGS),
+    'switch1-style': dict(fn=h_switch, nontrivial=[t for t in ALL_TAGS if t.startswith(('switch-', 'raw-clear'))],
+                          required=[t for t in ALL_TAGS if t != 'reenter-held'] + STYLE_TAGS),
+    'switch-proc-style': dict(fn=h_switch,
+                              nontrivial=[t for t in ALL_TAGS if t.startswith(('switch-', 'reenter', 'raw-clear'))],
+                              required=[t for t in ALL_TAGS if t not in ('origin-on_update', 'origin-coroutine')]
+                              + STYLE_TAGS),
     'switch1-falsy': dict(fn=h_switch, nontrivial=[t for t in ALL_TAGS if t.startswith(('switch-', 'raw-clear'))],
                           required=[t for t in ALL_TAGS if t != 'reenter-held'] + ['falsy-world-left']),
     'switch-proc-falsy': dict(fn=h_switch,
@@ -691,6 +721,7 @@ TIERS = {
         ('switch1-omit', dict(R=1, n_handles=2, omit=True)),
         ('switch1-nd', dict(R=1, n_handles=2, nondefault=True)),
         ('switch1-falsy', dict(R=1, n_handles=2, falsy=True)),
+        ('switch1-style', dict(R=1, n_handles=2, callstyle=True)),
     ],
     'thorough': [
         ('switch', dict(R=2, n_handles=3)),
@@ -704,6 +735,8 @@ TIERS = {
         ('switch-proc-nd', dict(R=2, n_handles=2, origins=('processor',), nondefault=True)),
         ('switch1-falsy', dict(R=1, n_handles=3, falsy=True)),
         ('switch-proc-falsy', dict(R=2, n_handles=2, origins=('processor',), falsy=True)),
+        ('switch1-style', dict(R=1, n_handles=3, callstyle=True)),
+        ('switch-proc-style', dict(R=2, n_handles=2, origins=('processor',), callstyle=True)),
     ],
 }
 BUDGET_S = {'quick': 120, 'thorough': 1500}
@@ -724,11 +757,11 @@ RULE = ('one evaluation = one feasible path = one complete frame script with its
 BOUNDS = {
     'quick': '2 handles, scripts of exactly 1 and 2 requests (all origins, both methods, both clear flags, both '
              'handle kinds, cached or not); 1 request with three-valued clear flags (omitted / False / True); 1 request on a loop that is not '
-             'desper.default_loop (idle default loop: no world / own world / seated on a script handle); 1 request with falsy World subclasses',
+             'desper.default_loop (idle default loop: no world / own world / seated on a script handle); 1 request with falsy World subclasses; 1 request with five spellings of the switch() call',
     'thorough': '3 handles x 1 and 2 requests (everything); 2 handles x 3 requests issued from processors; 3 handles '
                 'x 3 requests, switch() from processors; 3 handles x 3 requests from processors, both methods, no '
                 'handle cached beforehand; three-valued clear flags: 3 handles x 1 request, 2 handles x 2 requests '
-                'from processors; non-default loop and falsy World subclasses: 3 handles x 1 request, 2 handles x 2 requests from '
+                'from processors; non-default loop, falsy World subclasses and call spellings: 3 handles x 1 request, 2 handles x 2 requests from '
                 'processors each',
 }
 ASSUMPTIONS = [
@@ -758,6 +791,10 @@ ASSUMPTIONS = [
     'reports that a restart (switch to the own handle with clear_current) retried after its reload failed loads twice '
     'and loses on_switch_in, because the current handle is then uncached and switch() no longer recognises the '
     'self-switch',
+    'callstyle=True entries (default loop): every switch() call is spelled in one of five ways that the signature '
+    'makes equivalent - flags as keywords and no from_world, from_world=<the running world>, from_world=None written '
+    'out (the documented default: "the default loop\'s current world"), flags positional, flags and None positional; '
+    'same oracle',
     'switch() from a processor passes from_world explicitly, from callbacks and coroutines it relies on '
     'desper.default_loop (pointed at the loop under test for the duration of the path)',
     'after an exception escaped CoroutineProcessor.process its rotation may be off by one frame (C08/C09 matter): '
